@@ -220,6 +220,11 @@ func (it *Intersect) Get(th *Thread, dir Dir) Row {
 
 func (it *Intersect) Lookup(th *Thread, sels Sels) Row {
 	it.nlooks++
+	if len(sels) == 0 && !isEmptyKey(it.source1.Keys()) {
+		// the empty key is from source2 so we can't Lookup on source1
+		it.Rewind()
+		return it.Get(th, Next)
+	}
 	row := it.source1.Lookup(th, sels)
 	if row == nil || it.source2Has(th, row) {
 		return row
